@@ -51,6 +51,24 @@ var checks = []Check{
 		Assumptions: []string{"Close durations <= 5 s, Stop delays <= 6 s; 'returns' means within 5 simulated minutes", "the instrumented copy differs from the shipped code only by rules R1-R5 (yields, scheduler-aware locks, simulated select)"},
 		MustProbe: []string{"three_or_more_stops", "stop_during_or_after_run", "stopped_before_run", "second_run_attempted", "nested_context", "map_elements_realised"}, MinRunsForProbes: 2000,
 	},
+	{
+		ID: "C04", Pkg: "checks/c04", Instr: coreInstr,
+		QuickRuns: 150000, ThoroughRuns: 6000000, QuickBudgetS: 45, ThoroughBudgetS: 600, ShrinkS: 30,
+		Rule: "one run = one generated call graph (1-4 procedures with value/ref parameters and initialised/uninitialised locals, 1-3 labels each, calls guarded by a fuel argument so recursion and mutual recursion terminate, calls in tail position compiled to TailCall, archetype with 1-3 locals and 1-4 labels) built as MPCalJumpTable/MPCalProcTable in the code generator's conventions and run by the real MPCalContext.Run; some labels fail 1-2 attempts after doing all their work (assignments, Call/Return/TailCall); after every attempt pc, every stack frame and every variable are compared with a reference interpreter of PlusCal call semantics; non-trivial = at least one procedure call executed; distinct = distinct (program, abort pattern) digests",
+		Real:        realU,
+		Stub:        []string{"the Scala code generator cannot run offline: jump/proc tables are hand-built in its conventions (StateVars order, PreAmble writes, \"<Proc>.<var>\" resources, ref parameters holding handle strings as in MPCalGoCodegenPass.readArgumentValues)"},
+		Assumptions: []string{"values are 32-bit integers and handle strings; recursion depth bounded by fuel <= 3", "single task: the only run-time nondeterminism is the retry pattern"},
+		MustProbe:   []string{"depth_ge_3", "abort_after_call", "abort_after_return", "tailcall_executed", "recursion_executed"}, MinRunsForProbes: 2000,
+	},
+	{
+		ID: "C10", Pkg: "checks/c10", Instr: coreInstr,
+		QuickRuns: 200000, ThoroughRuns: 10000000, QuickBudgetS: 45, ThoroughBudgetS: 600, ShrinkS: 30,
+		Rule: "one run = 1-5 phases; a phase is a label whose every attempt consults the same 1-4 choice points (bounds 1-6) and fails until a drawn target combination (or for exactly product-of-bounds attempts: a full window); between phases the structure changes (prefix-stable or not, longer or shorter, new ids or bounds) either under retry (no commit) or after a commit to the same or another label; start digits of the real round-robin oracle are decisions of the stream; non-trivial = at least one retried attempt; distinct = distinct (phase structure, start digits) digests",
+		Real:        realU,
+		Stub:        []string{"the label body is harness code calling iface.NextFairnessCounter as generated code does for either/with"},
+		Assumptions: []string{"single task; the property's exactly-once clause is checked on every maximal run of attempts that consult the same choice points"},
+		MustProbe:   []string{"full_window_checked", "structure_change_under_retry", "same_label_after_commit", "label_change", "depth_ge_3"}, MinRunsForProbes: 2000,
+	},
 }
 
 func findCheck(id string) *Check {
